@@ -251,7 +251,7 @@ def edits(spec, seed=0, max_depth=3, with_float=False, with_main=False):
         if p not in spec["tree"]["platforms"]:
             out.append(["platform+", p])
     for p in spec["tree"]["platforms"]:
-        if p not in spec["images"] and (p != spec["tree"]["arch"] or len(spec["tree"]["platforms"]) > 1):
+        if p not in spec["images"]:
             out.append(["platform-", p])          # (also the arch itself: the writer always lists it)
     # variants
     nodes = list(walk(spec["variants"]))
